@@ -8,8 +8,8 @@ from collections import OrderedDict
 PID = "C07"
 CLUSTER = "Sorter"
 PROPS = "props/C07.v"
-N_QUICK = 1400
-N_THOROUGH = 25000
+N_QUICK = 4000
+N_THOROUGH = 60000
 RULE = ("histories add*/list(sorter) on Sorter and MafSorter through the public API: multisets of 0-9 items over a "
         "small key alphabet (ties, duplicates), every capacity 1..n+1 (plus 0), both spill policies, shuffled insertion "
         "orders, re-iteration and adding after iterating; generic sorter with int/str/tuple/list/float/bool keys "
